@@ -353,6 +353,11 @@ func statusesAt(w *World, g *Graph, rel ssa.Value, p IPos, depth int) map[string
 				return
 			}
 			if v, ok := b.Instrs[k].(ssa.Value); ok && v == rel {
+				if _, isLit := rel.(*ssa.Alloc); isLit {
+					// a composite literal: its Info may have been built (and given its status) in a
+					// local before the literal itself — keep looking further back
+					continue
+				}
 				reachedTop = true
 				return
 			}
@@ -457,7 +462,22 @@ func originStatuses(w *World, rel ssa.Value, depth int) map[string]bool {
 			}
 		}
 	case *ssa.UnOp:
-		out["?"] = true
+		// a parameter or local that lives in a slot because a closure captures it: what was stored there
+		slot, isSlot := v.X.(*ssa.Alloc)
+		n := 0
+		if isSlot && v.Op == token.MUL && slot.Referrers() != nil {
+			for _, rf := range *slot.Referrers() {
+				if st, ok := rf.(*ssa.Store); ok && st.Addr == ssa.Value(slot) {
+					n++
+					for s := range originStatuses(w, st.Val, depth+1) {
+						out[s] = true
+					}
+				}
+			}
+		}
+		if n == 0 {
+			out["?"] = true
+		}
 	default:
 		out["?"] = true
 	}
